@@ -172,7 +172,10 @@ func runC14(c *eng.Ctx) {
 		conds, _ := eng.GuardingConds(f, wb.Instr)
 		for i, cd := range conds {
 			onlyErr := eng.DependsOnField(cd, "pkg/encoding.TSDEncoder.err") &&
-				!eng.DependsOn(cd, func(x ssa.Value) bool { pr, ok := x.(*ssa.Parameter); return ok && pr.Parent() == f && pr != f.Params[0] }) &&
+				!eng.DependsOn(cd, func(x ssa.Value) bool {
+					pr, ok := x.(*ssa.Parameter)
+					return ok && pr.Parent() == f && pr != f.Params[0]
+				}) &&
 				!eng.DependsOnField(cd, "pkg/encoding.TSDEncoder.count", "pkg/encoding.TSDEncoder.startTime")
 			c.Check(onlyErr, fmt.Sprintf("bit-written-unless-poisoned[%d]", i), wb.Instr, f,
 				"the only reason not to write the slot's bit is an earlier error: every slot, empty or not, leading or not, occupies one position of the stream",
